@@ -20,18 +20,20 @@ def make_atom(tag, adp_type):
                adp_type=adp_type, adp=adp, occ=Rat.atom("occ_%s" % tag), symmulti=Rat.atom("mult_%s" % tag))
 
 
-def make_sg(nsymop):
-    return Obj("mysg", nsymop=Rat.const(nsymop), rot=sym_array("R", (nsymop, 3, 3)), trans=sym_array("t", (nsymop, 3)),
+def make_sg(nsymop, rot=None):
+    """rot: None for symbolic rotation parts, else explicit integer matrices (translations stay symbolic)"""
+    R = sym_array("R", (nsymop, 3, 3)) if rot is None else Arr([[[Rat.const(x) for x in row] for row in m] for m in rot])
+    return Obj("mysg", nsymop=Rat.const(nsymop), rot=R, trans=sym_array("t", (nsymop, 3)),
                nuniq=Rat.const(max(1, nsymop - 1)))
 
 
-def evaluate(mod, atoms, nsymop, disper):
+def evaluate(mod, atoms, nsymop, disper, rot=None):
     """-> ([Freal, Fimg], log of external calls)"""
     log = []
     hkl = sym_array("hkl", (3,))
     ucell = sym_array("ucell", (6,))
     sgname = "SGNAME"
-    mysg = make_sg(nsymop)
+    mysg = make_sg(nsymop, rot)
 
     def ipol(name, args, kwargs, node):
         log.append((name, args, kwargs))
@@ -49,6 +51,7 @@ def evaluate(mod, atoms, nsymop, disper):
             return Rat.atom("f['%s']" % args[0])
         return NotImplemented
     ev = Evaluator(mod, inline=True, call_policy=cpol, import_policy=ipol)
+    ev.generic_equality = True      # a symbolic matrix entry is not equal to a given constant (special operations are modelled explicitly)
     out = ev.call_function("StructureFactor", [hkl, ucell, sgname, atoms, disper])
     if isinstance(out, Arr):
         out = out.data
@@ -57,7 +60,7 @@ def evaluate(mod, atoms, nsymop, disper):
     return [scalar(out[0]), scalar(out[1])], log, hkl, ucell
 
 
-def reference(atoms, nsymop, disper, adp_law="RbRt"):
+def reference(atoms, nsymop, disper, adp_law="RbRt", rot=None):
     """explicit sum over atoms x operations, as normal forms"""
     h = [Rat.atom("hkl[%d]" % i) for i in range(3)]
     stl = Rat.atom("stl")
@@ -80,7 +83,7 @@ def reference(atoms, nsymop, disper, adp_law="RbRt"):
             Um = [[u[0], u[5], u[4]], [u[5], u[1], u[3]], [u[4], u[3], u[2]]]
             beta = [[2 * PI * PI * cs[i] * cs[j] * Um[i][j] for j in range(3)] for i in range(3)]
         for j in range(nsymop):
-            R = [[Rat.atom("R[%d,%d,%d]" % (j, p, q)) for q in range(3)] for p in range(3)]
+            R = [[Rat.atom("R[%d,%d,%d]" % (j, p, q)) if rot is None else Rat.const(rot[j][p][q]) for q in range(3)] for p in range(3)]
             t = [Rat.atom("t[%d,%d]" % (j, p)) for p in range(3)]
             r = [sum((R[p][q] * x[q] for q in range(3)), Rat.const(0)) + t[p] for p in range(3)]
             phase = 2 * PI * sum((h[p] * r[p] for p in range(3)), Rat.const(0))
